@@ -465,7 +465,10 @@ fn gen_shape(rng: &mut Rng) -> Vec<(u64, u64)> {
     }
 }
 
-fn gen_event(rng: &mut Rng, k: &Contract, noisy: bool, settle: bool) -> Option<Ev> {
+fn gen_event(rng: &mut Rng, k: &Contract, noisy: bool, settle: bool, acc_fail: bool) -> Option<Ev> {
+    // accept failures (a protocol cannot be told about the connection) are part of C06's quantifier:
+    // in the limits-focused stream they are ordinary events, not noise
+    let af = |rng: &mut Rng, pct: u64| -> bool { acc_fail && rng.chance(pct) };
     let rp = |rng: &mut Rng| -> usize {
         if rng.chance(4) {
             0
@@ -506,19 +509,19 @@ fn gen_event(rng: &mut Rng, k: &Contract, noisy: bool, settle: bool) -> Option<E
             }),
             42..=58 => pick(rng, &k.owed_neg).map(|(c, p)| {
                 if rng.chance(65) {
-                    Ev::TrEstablished(p, c, false, false)
+                    Ev::TrEstablished(p, c, false, af(rng, 7))
                 } else {
                     Ev::TrDialFailure(c, p)
                 }
             }),
-            59..=75 => pick(rng, &k.owed_acc).map(|(c, _, _)| Ev::AcceptDone(c, true)),
+            59..=75 => pick(rng, &k.owed_acc).map(|(c, _, _)| Ev::AcceptDone(c, !af(rng, 20))),
             76..=87 => {
                 if settle {
                     None
                 } else if k.allocated.is_empty() || rng.chance(30) {
                     Some(Ev::AllocConn)
                 } else if rng.chance(80) {
-                    pick(rng, &k.allocated).map(|c| Ev::TrEstablished(rp(rng).max(1), c, true, false))
+                    pick(rng, &k.allocated).map(|c| Ev::TrEstablished(rp(rng).max(1), c, true, af(rng, 7)))
                 } else {
                     pick(rng, &k.allocated).map(Ev::TrPendingInbound)
                 }
@@ -569,12 +572,12 @@ fn run_generated(rt: &Runtime, rng: &mut Rng, thorough: bool, focus_limits: bool
                 phase_settle = true;
                 continue;
             }
-            match gen_event(rng, &k, noisy, false) {
+            match gen_event(rng, &k, noisy, false, focus_limits) {
                 Some(e) => e,
                 None => break,
             }
         } else if !(k.owed_open.is_empty() && k.owed_neg.is_empty() && k.owed_acc.is_empty()) {
-            match gen_event(rng, &k, false, true) {
+            match gen_event(rng, &k, false, true, focus_limits) {
                 Some(e) => e,
                 None => break,
             }
